@@ -485,7 +485,7 @@ def _wc_expected_value(rec, idx, kind):
         return {'o': 'child-%s-out' % idx}
     for c in rec['extra']['completions']:
         if c[0] == idx and c[1][0] == 'value':
-            return c[1][1]
+            return '@NONE' if c[1][1] is None else c[1][1]  # (None is a result like any other: the key is there, and holds None)
     return None
 
 
@@ -534,7 +534,11 @@ def judge_c10(rec, barrier_only=False):
             exp = _wc_expected_value(rec, idx, kind)
             if exp is None:
                 continue  # the item did not complete with a value (failures are judged below)
-            if ctxvals.get(key) != exp:
+            if exp == '@NONE':
+                exp = None
+                if key in ctxvals and ctxvals[key] is None:
+                    continue
+            if ctxvals.get(key, '<missing>') != exp:
                 out.append(V('ctx-wrong', 'ctx-wrong:%s:%s' % (kind, shape),
                              'at entry of step %d ctx[%s]=%r, expected %r (acts %s)' % (i, key, ctxvals.get(key), exp, pat)))
     # failures: EXCEPTED with the first failure, the following step never runs
